@@ -76,6 +76,9 @@ func convertScenarioToAmmo(sc config.ScenarioConfig, reqs map[string]config.Requ
 		if sleep > 0 {
 			r.Sleep += time.Millisecond * time.Duration(sleep)
 		}
+		if cnt > config.MaxScenarioRequests-len(result.Requests) {
+			return nil, fmt.Errorf("%s: a scenario may hold at most %d requests", sh, config.MaxScenarioRequests)
+		}
 		for i := 0; i < cnt; i++ {
 			result.Requests = append(result.Requests, r)
 		}
